@@ -21,7 +21,9 @@ PROPS = {
              "Tier B cases: policy, exclusive or ipvlan (host side) datapath, family, 1..3 pods on one ENI (exclusive: own ENI stand-in each, optionally a second interface eth1), 2..9 operations "
              "setup/check/teardown in drawn order incl. teardown twice and teardown without setup, optional decoy rules (same priorities, wider prefixes containing pod addresses), "
              "TeardownCfg with/without host veth name and with the ENI index real / 0 / stale-positive. Faulty pre-states are drawn too: before Setup the host namespace may still hold "
-             "stale prio-512/2048 rules for the pod's own address pointing into another interface's table, or the previous owner's veth with a host route for the pod's IPv4 /32; "
+             "stale prio-512/2048 rules for the pod's own address pointing into another interface's table, or the previous owner's veth with a host route for the pod's IPv4 /32, "
+             "or rule pairs in the format of older releases (`from X iif <vanished veth>` prio 2048 + plain `to X` prio 512) for the pod's own address or, from the start, for an unrelated address "
+             "(those unrelated legacy rules are nobody's: a teardown may clean them, everything else must survive); "
              "the shared ENI may disappear mid-history (later teardowns get its old index); the ENI of eth1 may carry the host ifindex that eth0 occupies inside the pod (kernel renumbers it); "
              "before about half of the teardowns of a live pod a drawn subset of the pod's own host objects (from/to rule per family, host route per family, host veth) is already gone, "
              "as after an interrupted earlier DEL. non-trivial = dual-stack, or MultiNetwork, or >= 2 pods on one ENI, or extra routes (tier B: and at least one setup). "
